@@ -45,10 +45,10 @@ pub fn render(o: &Obs) -> String {
                 s.status,
                 s.headers
                     .iter()
-                    .map(|(k, v)| format!("{k}: {}", bytes_str(v)))
+                    .map(|(k, v)| if k.eq_ignore_ascii_case("etag") { format!("{k}: <etag>") } else { format!("{k}: {}", bytes_str(v)) })
                     .collect::<Vec<_>>(),
                 match &s.etag {
-                    EtagSpec::Raw(b) => format!("Raw({} bytes)", b.len()),
+                    EtagSpec::Raw(_) => "Raw(..)".to_string(),
                     e => format!("{e:?}"),
                 },
                 bytes_str(&s.body)
